@@ -36,6 +36,21 @@ impl Decimal {
         Decimal::new(coef, self.exp.max(other.exp))
     }
 
+    /// Like [`Decimal::lcm`], but `None` when the result does not fit the coefficient.
+    pub fn checked_lcm(&self, other: &Decimal) -> Option<Decimal> {
+        if self.coef == 0 || other.coef == 0 {
+            return Some(Decimal::new(0, 0));
+        }
+        let a = self
+            .coef
+            .checked_mul(10u32.checked_pow(other.exp.saturating_sub(self.exp))?)?;
+        let b = other
+            .coef
+            .checked_mul(10u32.checked_pow(self.exp.saturating_sub(other.exp))?)?;
+        let coef = (a / gcd(a, b)).checked_mul(b)?;
+        Some(Decimal::new(coef, self.exp.max(other.exp)))
+    }
+
     pub fn to_f64(&self) -> f64 {
         self.coef as f64 / 10.0f64.powi(self.exp as i32)
     }
